@@ -411,6 +411,7 @@ def units():
             Unit("make_adj_directed_tri_indices", U_ + ":make_adj_directed_tri_indices", lambda m=None: _mc().run_adjacency(m), props=["C07"], timeout=300),
             Unit("get_dual_edge_lengths", U_ + ":get_dual_edge_lengths", lambda m=None: _mc().run_dual_edge_lengths(m), props=["C07"], timeout=300),
             Unit("compute_voronoi_polygon_areas[cell rule]", U_ + ":compute_voronoi_polygon_areas", lambda m=None: _mc().run_voronoi_cell_areas(m), props=["C07"], timeout=600),
+            Unit("get_voronoi_polygon_indices", U_ + ":get_voronoi_polygon_indices", lambda m=None: _mc().run_voronoi_polygon_indices(m), props=["C07"], timeout=300),
             Unit("tdgl.geometry helpers", "tdgl.geometry:ensure_unique, close_curve",
                  lambda m=None: __import__("checks.geometry_common", fromlist=["x"]).run_geometry(m, prefixes=("C07.",)), props=["C07", "C18"], timeout=300),
             Unit("Device.make_mesh", "tdgl.device.device:Device.make_mesh / _create_dimensionless_mesh / points / edge_lengths / areas",
@@ -627,7 +628,7 @@ def replay(unit, obl):
         bad, n = geometry_common.native(0)
         if bad:
             return dict(confirmed=True, failing_input=bad[0], n_failing=len(bad), evaluations=n, tdgl_file=tdgl.__file__)
-    if unit in ("get_edges", "Mesh.find_boundary_indices", "make_adj_directed_tri_indices", "get_dual_edge_lengths", "Mesh.smooth"):
+    if unit in ("get_edges", "Mesh.find_boundary_indices", "make_adj_directed_tri_indices", "get_dual_edge_lengths", "Mesh.smooth", "get_voronoi_polygon_indices"):
         bad, n = _mc().native(0)
         if bad:
             return dict(confirmed=True, failing_input=bad[0], n_failing=len(bad), evaluations=n, tdgl_file=tdgl.__file__)
@@ -639,6 +640,8 @@ def replay(unit, obl):
 
 VU_ = ["compute_voronoi_polygon_areas[cell rule]"]
 MUTANTS = [
+    dict(name="polygon indices: stored values not shifted back", units=["get_voronoi_polygon_indices"], edits=[(U_, "    return [np.array(tri) - 1 for tri in adj.data]", "    return [np.array(tri) for tri in adj.data]")]),
+    dict(name="polygon indices: last site dropped", units=["get_voronoi_polygon_indices"], edits=[(U_, "    return [np.array(tri) - 1 for tri in adj.data]", "    return [np.array(tri) - 1 for tri in adj.data[:-1]]")]),
     dict(name="cell areas: midpoints of ALL boundary edges", units=VU_, edits=[(U_, "        midpoints = sites[connected_boundary_edges].mean(axis=1)", "        midpoints = sites[boundary_edges].mean(axis=1)")]),
     dict(name="cell areas: concave triangle added instead of subtracted", units=VU_, edits=[(U_, "            areas[site] -= triangle_area", "            areas[site] += triangle_area")]),
     dict(name="cell areas: site inserted before the first midpoint", units=VU_, edits=[(U_, "            coords.insert(indices[1], sites[site])", "            coords.insert(indices[0], sites[site])")]),
